@@ -17,7 +17,18 @@ func register(id string, fn func(*core.Ctx)) { Registry[id] = fn }
 var subject *core.Program
 
 // SetSubject records the program whose data files readSubjectFile serves.
-func SetSubject(p *core.Program) { subject = p }
+func SetSubject(p *core.Program) {
+	subject = p
+	// units of analysis that are never inlined into their callers, whatever rule runs
+	// first: the exported operations of package num (each is judged on its own body)
+	if pk := p.Pkg("num"); pk != nil {
+		for _, fd := range p.RawFuncs(pk) {
+			if fd.Obj.Exported() {
+				p.Anchor(fd.Obj)
+			}
+		}
+	}
+}
 
 func readSubjectFile(abs string) ([]byte, error) {
 	if subject != nil {
